@@ -1297,9 +1297,11 @@ RULE = ("op=run: one case = (branch list, flow, copy_buf) run under EVERY bufsiz
         "exhaustive over the four branch kinds with tagged outputs and LenaStopFill at every fill index "
         "(quick: lists 0..3 for flows 0..2, 0..2 for flows 3..4; thorough: lists 0..4 for flows 0..3, 0..3 for flows "
         "of length 4), plus seeded random cases (lists 0..4/5, flows 0..8 of random integers, 7 kinds of run "
-        "elements, lena.math.Sum, late/multi-result variants, every argument form accepted by _get_seq_with_type); "
-        "op=methods / zip: random common-type and mixed branch lists; op=init: every capability subset as a single "
-        "argument, tuples over 16 representative capability sets, pairs, random lists. "
+        "elements, lena.math.Sum, late/multi-result variants, every argument form accepted by _get_seq_with_type "
+        "incl. tuples with pre-/post-processing callables, a common-type Split nested as a branch); "
+        "op=methods / zip: random common-type and mixed branch lists (zip also with results carrying contexts, "
+        "oracle only); op=init: every capability subset as a single argument, tuples over 16 representative "
+        "capability sets, pairs, random lists; corpus/C03: regression cases. "
         "Non-trivial: >= 2 branches and a non-empty output (run), a non-empty result or an exception (others).")
 LEVEL_TEXT = ("Lean 4 theorems about a transcribed model of Split.run (block loop, index loop with in-place deletion, "
               "final pass), Split's common-type methods, _get_seq_with_type and Zip._yield, for ALL branch lists (any "
